@@ -31,6 +31,9 @@ type c07Case struct {
 	// LoadDesc: storage hands back the records in descending key order on
 	// reload (dependents d1 < i1, i2 < r1 < r2 then come after their targets).
 	LoadDesc bool `json:"loadDesc,omitempty"`
+	// Hooks: the cron state hooks are installed, as sys.System does (they
+	// look at the stored item whenever one is written or removed).
+	Hooks bool `json:"hooks,omitempty"`
 }
 
 // slowStore makes every storage write take (virtual) time, so that the clock
@@ -58,11 +61,12 @@ func genC07(t *rapid.T) c07Case {
 	c.Offset = rapid.SampledFrom([]int64{0, 0, 1, 300e6, 999999999}).Draw(t, "offset")
 	c.Slow = rapid.SampledFrom([]int64{0, 0, 0, 600e6, 1e9}).Draw(t, "slow")
 	c.LoadDesc = rapid.Bool().Draw(t, "loadDesc")
+	c.Hooks = rapid.Bool().Draw(t, "hooks")
 	n := rapid.IntRange(2, 14).Draw(t, "nops")
 	usedFar := false
 	for i := 0; i < n; i++ {
 		l := fmt.Sprintf("op%d", i)
-		kinds := []string{"write", "write", "write", "dep", "get", "get", "search", "event", "reload", "sleepTo", "sleepTo", "sleepTo", "sleep", "list", "deprule", "keep", "event"}
+		kinds := []string{"write", "write", "write", "dep", "get", "get", "search", "event", "reload", "sleepTo", "sleepTo", "sleepTo", "sleep", "list", "deprule", "keep", "event", "clear"}
 		switch k := rapid.SampledFrom(kinds).Draw(t, l+".kind"); k {
 		case "write":
 			id := rapid.SampledFrom(c07Items).Draw(t, l+".id")
@@ -93,7 +97,10 @@ func genC07(t *rapid.T) c07Case {
 			c.Ops = append(c.Ops, op{K: "keep", Id: "keep"})
 		case "get":
 			c.Ops = append(c.Ops, op{K: "get", Id: rapid.SampledFrom(append([]string{"d1", "r2", "keep"}, c07Items...)).Draw(t, l+".id")})
-		case "search", "event", "reload", "list":
+		case "search", "event", "reload", "list", "clear":
+			if k == "clear" && rapid.IntRange(0, 2).Draw(t, l+".really") != 0 {
+				k = "search"
+			}
 			c.Ops = append(c.Ops, op{K: k})
 		case "sleepTo":
 			off := rapid.SampledFrom(c07Offsets).Draw(t, l+".off")
@@ -134,6 +141,9 @@ func runC07(c c07Case) *vlib.Outcome {
 	w := newWorld(c.Kind, store, o)
 	w.strictEvents = true
 	w.loadDesc = c.LoadDesc
+	if c.Hooks {
+		w.withCronHooks()
+	}
 	w.open("L")
 	ml := w.model["L"]
 	universe := append([]string{"d1", "r2", "keep"}, c07Items...)
@@ -362,6 +372,19 @@ func runC07(c c07Case) *vlib.Outcome {
 			withMaybe(func() { ec = w.checkEvent("L", M{"a": "x"}, when) })
 			_ = ec
 			purge([]string{"r1"}, when)
+		case "clear":
+			// Clearing the location works whatever has expired in it
+			// (and leaves nothing behind, in memory or in storage).
+			if err := w.clear("L"); err != nil {
+				o.Fail("CLEAR", "%s: Clear failed: %v", when, err)
+				return o
+			}
+			for id := range ml.Unspec {
+				delete(ml.Unspec, id)
+			}
+			seenExp = map[string]float64{}
+			o.Label("clear")
+			w.checkStorage("L", when+" (after Clear)")
 		case "reload":
 			for _, it := range ml.Items {
 				if it.ExpLo != 0 && it.live(nowSecs()) == 1 {
